@@ -54,10 +54,13 @@ pub enum Fmt {
     /// JSON bytes parsed into a `serde_json::Value` and decoded with `from_value` (owned `visit_string`,
     /// numbers re-typed through u64/i64/f64)
     JsonValue,
+    /// RON written with `PrettyConfig::struct_names(true)`: newtype structs carry their name (`Age(42)`), and the
+    /// deserializer compares it with the name the Deserialize impl announces
+    RonNamed,
 }
 pub const FMTS: [Fmt; 3] = [Fmt::Json, Fmt::Ron, Fmt::MsgPack];
 /// the encoders above plus the two further decoders of JSON bytes
-pub const ALL_FMTS: [Fmt; 5] = [Fmt::Json, Fmt::Ron, Fmt::MsgPack, Fmt::JsonReader, Fmt::JsonValue];
+pub const ALL_FMTS: [Fmt; 6] = [Fmt::Json, Fmt::Ron, Fmt::MsgPack, Fmt::JsonReader, Fmt::JsonValue, Fmt::RonNamed];
 
 #[derive(Clone, Copy, Debug, PartialEq, Eq)]
 pub enum Pos {
